@@ -17,7 +17,7 @@ import types
 
 import z3
 
-from .values import (Sym, PObj, PList, PDict, PSet, DictView, JsonText, BoundMethod, BuiltinMethod, Closure,
+from .values import (Sym, PObj, PList, PGenList, PDict, PSet, DictView, JsonText, BoundMethod, BuiltinMethod, Closure,
                      SuperProxy, Foreign, Opaque, Unsupported, AnyVal, LockVal, V, mk, kind_of, is_sym, z3_of, to_U, py_eq_scalar,
                      truthy_scalar, sym_not, sym_and, sym_or, as_z3_bool, ite_value, NUM)
 from . import loader
@@ -52,6 +52,15 @@ class CannotConvert(Exception):
 
 class Infeasible(Exception):
     pass
+
+
+class _Poison:
+    """value of a name bound inside a loop over a list of unknown length, after that loop: must not be read"""
+    def __repr__(self):
+        return '<dead after loop>'
+
+
+POISON = _Poison()
 
 
 class PathLimit(Exception):
@@ -1206,6 +1215,8 @@ class Interp:
 
     def st_For(self, s, frame):
         it = self.eval(s.iter, frame)
+        if isinstance(it, PGenList):
+            return self.gen_loop(s, it, frame)
         for item in self.iterate(it):
             self.assign(s.target, item, frame)
             try:
@@ -1215,6 +1226,96 @@ class Interp:
             except ContinueSig:
                 continue
         self.exec_block(s.orelse, frame)
+
+    # ----------------------------------------------------------------------------------- loop rule (unbounded lists)
+    def _gen_body_once(self, s, elem, frame, must):
+        """one iteration of the loop body on `elem`; must='complete': paths on which it raises are infeasible and a heap
+        write is outside the rule; must='raise': paths on which it completes are infeasible (the exception propagates)"""
+        before = self.ctx.mutations
+        self.assign(s.target, elem, frame)
+        try:
+            try:
+                self.exec_block(s.body, frame)
+            except ContinueSig:
+                pass
+        except PyRaise:
+            if must == 'raise':
+                raise
+            raise Infeasible()
+        if must == 'raise':
+            raise Infeasible()
+        if self.ctx.mutations != before:
+            raise Unsupported('loop rule: an iteration that completes normally writes to the heap (needs an invariant)')
+
+    def gen_loop(self, s, L, frame):
+        """`for x in L` over a list of unknown length whose body, when it completes normally, has no effect that outlives
+        the iteration (checked: no heap write, no break/return/yield/global; names bound in the body are dead afterwards).
+        Then the loop (A0) does nothing when L is empty, (A1) completes iff the body completes on every element -- recorded as
+        a fact about the GENERIC element -- or (B) ends with the exception of the first element on which the body raises -- a
+        fresh WITNESS element on which the bodies of the earlier completed loops over L complete and this body raises."""
+        if s.orelse:
+            raise Unsupported('loop rule: for/else')
+        bound = set()
+        for sub in s.body:
+            for node in ast.walk(sub):
+                if isinstance(node, (ast.Break, ast.Return, ast.Yield, ast.YieldFrom, ast.Global, ast.Nonlocal, ast.Await,
+                                     ast.Delete)):
+                    raise Unsupported(f'loop rule: {type(node).__name__} in the body')
+                if isinstance(node, ast.Name) and isinstance(node.ctx, ast.Store):
+                    bound.add(node.id)
+                if isinstance(node, (ast.FunctionDef, ast.ClassDef, ast.Import, ast.ImportFrom, ast.NamedExpr)):
+                    raise Unsupported(f'loop rule: {type(node).__name__} in the body')
+        for node in ast.walk(s.target):
+            if isinstance(node, ast.Name):
+                bound.add(node.id)
+            elif not isinstance(node, (ast.Tuple, ast.Store, ast.Load)):
+                raise Unsupported('loop rule: loop target is not a plain name')
+        self.ctx.trust('loop rule for lists of unknown length: a for-loop whose normally completing iterations have no effect '
+                       '(checked per path: no heap write; no break/return/global; names bound in the body are unusable '
+                       'afterwards) completes iff its body completes on every element and otherwise ends with the exception '
+                       'of the first element on which the body raises (induction over the list, done by the rule, not by the '
+                       'solver)')
+        n = L.n.t
+        which = self.ctx.choose([n == 0, n > 0, n > 0], 'loop over a list of unknown length: empty / completes / raises')
+        if which == 0:
+            return
+        if which == 1:
+            self._gen_body_once(s, L.gen, frame, 'complete')
+            L.univ.append(('loop', s, frame))
+            for nm in bound:
+                frame.locals[nm] = POISON
+            return
+        w = self.gen_witness(L)
+        self._gen_body_once(s, w, frame, 'raise')
+
+    def gen_witness(self, L):
+        """a fresh element of L: everything that is known of EVERY element (loops that completed, branch_all) holds of it"""
+        w = L.new_elem()
+        for u in list(L.univ):
+            if u[0] == 'pred':
+                self.ctx.assume(as_z3_bool(u[1](w)))
+                continue
+            _, s0, f0 = u
+            saved = dict(f0.locals)
+            self._gen_body_once(s0, w, f0, 'complete')
+            for nm in list(f0.locals):
+                f0.locals[nm] = saved[nm] if nm in saved else POISON
+        L.wit.append(w)
+        return w
+
+    def branch_all(self, L, pred):
+        """for contracts / summaries: decide `every element of L satisfies pred` as a branch. True: pred becomes a fact about
+        the generic element (under n > 0) and every witness; False: a fresh witness element violates pred."""
+        n = L.n.t
+        known = [as_z3_bool(pred(w)) for w in L.wit]
+        allc = z3.And(z3.Implies(n > 0, as_z3_bool(pred(L.gen))), *known)
+        which = self.ctx.choose([allc, n > 0], 'every element of a list of unknown length satisfies the predicate?')
+        if which == 0:
+            L.univ.append(('pred', pred))
+            return True
+        w = self.gen_witness(L)
+        self.ctx.assume(z3.Not(as_z3_bool(pred(w))))
+        return False
 
     def st_With(self, s, frame):
         return self.models.with_stmt(self, s, frame)
@@ -1344,6 +1445,8 @@ class Interp:
         f = frame
         while f is not None:
             if name in f.locals and name not in f.global_names:
+                if f.locals[name] is POISON:
+                    raise Unsupported(f'loop rule: {name} is bound inside a loop over a list of unknown length and read after it')
                 return f.locals[name]
             f = f.parent
         if name in frame.globs:
